@@ -117,6 +117,21 @@ Proof.
 Qed.
 Print Assumptions c14_error_answer_lowers_score.
 
+(* The classification does not depend on a table's length: exactly the five named codes are unacceptable, so
+   every code from 16 (Unauthenticated) upward -- application-defined codes 17, 100, ... included -- is
+   acceptable and moves the score toward 1000 (c14_error_answer_lowers_score, second half). *)
+Theorem c14_only_five_codes_unacceptable : forall code,
+  (acceptable code = false -> code = 4 \/ code = 12 \/ code = 13 \/ code = 14 \/ code = 15) /\
+  (16 <= code -> acceptable code = true).
+Proof.
+  intro code. split.
+  - unfold acceptable. destruct code as [|p|p]; try discriminate.
+    do 5 (destruct p as [p|p|]; try discriminate; try (intros _; lia)).
+  - intro H. unfold acceptable. destruct code as [|p|p]; try reflexivity.
+    do 5 (destruct p as [p|p|]; try reflexivity; try lia).
+Qed.
+Print Assumptions c14_only_five_codes_unacceptable.
+
 (* DeadlineExceeded with EVERY status message ("context deadline exceeded" from status.FromContextError,
    "deadline", "", ...), every flag combination: unacceptable -- the classification depends on the code only, so
    a hung backend (every call ends with the caller's deadline firing) moves toward 0 at every completion and, by
